@@ -536,7 +536,8 @@ class FunctionAnalysis(BaseDomain):
         elif isinstance(s, ast.Assert):
             self.eval(s.test, env)
             r = self.assume(s.test, env, True)
-            if r is not None:
+            if r is not None and r is not env:
+                r = dict(r)
                 env.clear()
                 env.update(r)
         elif isinstance(s, ast.Return):
@@ -781,7 +782,8 @@ class FunctionAnalysis(BaseDomain):
             cur = env.get(t.id, VTOP)
             newv = self._binop_value(s.op, cur, rv, s)
             # in-place for mutable receivers (list += ..., set |= ...)
-            if any(_maybe_mutable_container(a) for a in cur):
+            scalar_rhs = bool(rv) and all(a in SCALARS or a == UNDEF for a in rv)
+            if any(_maybe_mutable_container(a) for a in cur) and not scalar_rhs:
                 self.mutation(s, t, cur, 'aug', env, added=elements_of(rv))
                 keep = frozenset(a for a in cur if _maybe_mutable_container(a))
                 scal = frozenset(a for a in newv if a in SCALARS)
@@ -1083,7 +1085,8 @@ class FunctionAnalysis(BaseDomain):
                 elif a[1] == 'str':
                     out.add(STR)
                 else:
-                    out |= a[3] or {TOP}
+                    # nothing stored yet on this path: reading would raise
+                    out |= a[3] or {UNDEF}
             elif k == 'TUPLE':
                 if is_slice:
                     out.add(fresh('tuple', self.site(e), elements_of(V(a))))
